@@ -481,6 +481,12 @@ func (g *gen) node(depth int, k kind, force bool) *Node {
 			n = &Node{K: "fn", Op: g.pick(funcNames, "fn"), A: g.node(d, kAny, false)}
 		default:
 			n = &Node{K: "imul", A: g.literal(kAny), B: g.node(d, kAny, false)}
+			if g.n(0, 2, "imulpow") == 0 {
+				// X^n(..): the implied product follows a tighter operator -
+				// (X^n)*(..) under either reading of juxtaposition
+				n.A = g.bin("^", g.node(d, kAny, false), g.literal(kSmall))
+				n.A.Gl = true
+			}
 		}
 	case kInt:
 		switch {
@@ -694,7 +700,13 @@ func swapLeaves(tree *Node, binds []Bind, swap []bool) (*Node, []Bind, int, int)
 			}
 			return &c
 		case "imul":
-			c.B = rec(n.B) // the literal of n(..) stays: x(..) is not documented
+			// the literal of n(..) stays: x(..) is not documented
+			if n.A.K == "bin" {
+				a := *n.A
+				a.A = rec(n.A.A)
+				c.A = &a
+			}
+			c.B = rec(n.B)
 			return &c
 		}
 		c.A = rec(n.A)
@@ -1148,8 +1160,8 @@ func TestReferenceSelf(t *testing.T) {
 		{"2+3*4", clWF, 14}, {"2*3+4", clWF, 10}, {"2^3^2", clWF, 64}, {"1 - 2 - 3", clWF, -4}, {"8/4/2", clWF, 1}, {"2*3^2", clWF, 18},
 		{"1 < 2 == 1", clWF, 1}, {"1 + 2 < 2 * 2 && 1", clWF, 1}, {"0 || 1 && 0", clWF, 0}, {"7 % 4 * 2", clWF, 6}, {"2 - -x", clWF, 6},
 		{"-x + 1", clWF, -3}, {"!0 && 1", clWF, 1}, {"1 << 2 << 1", clWF, 8}, {"(1 << 2) + 1", clWF, 5}, {"0x1BC + 0b1101", clWF, 457}, {"[0] - y", clWF, 10},
-		{"1 + 2(3)", clWF, 7}, {"2(3) * 4", clWF, 24}, {"sqrt(16)^2", clWF, 16}, {"-abs(y)", clWF, -3},
-		{"-2^2", clUnspec, 0}, {"2^-1^2", clUnspec, 0}, {"6/2(1+2)", clUnspec, 0}, {"2(3)^2", clUnspec, 0}, {"1 + 2 << 3", clUnspec, 0}, {"1 & 2 | 3", clUnspec, 0},
+		{"1 + 2(3)", clWF, 7}, {"2(3) * 4", clWF, 24}, {"x^2(3)", clWF, 48}, {"1 + 2^3(y) - 1", clWF, -24}, {"2^3(4) / 2", clWF, 16}, {"sqrt(16)^2", clWF, 16}, {"-abs(y)", clWF, -3},
+		{"-2^2", clUnspec, 0}, {"2^-1^2", clUnspec, 0}, {"6/2(1+2)", clUnspec, 0}, {"6*2(1+2)", clUnspec, 0}, {"-2(3)", clUnspec, 0}, {"2^-3(4)", clUnspec, 0}, {"1 << 2(3)", clUnspec, 0}, {"2(3)^2", clUnspec, 0}, {"1 + 2 << 3", clUnspec, 0}, {"1 & 2 | 3", clUnspec, 0},
 		{"--2", clUnspec, 0}, {"+2", clUnspec, 0}, {"2 3", clUnspec, 0}, {"(1)2", clUnspec, 0}, {"x(2)", clUnspec, 0}, {"010", clUnspec, 0}, {"1e5", clUnspec, 0},
 		{"2 $ 3", clUnspec, 0}, {"a = b", clUnspec, 0}, {"!x + 1", clUnspec, 0}, {"- x", clUnspec, 0}, {"abs (2)", clUnspec, 0}, {"2*-3", clUnspec, 0}, {"inf", clUnspec, 0}, {"0x1bc", clUnspec, 0},
 		{"", clMalformed, 0}, {"-", clMalformed, 0}, {"2 * -", clMalformed, 0}, {"()", clMalformed, 0}, {"(2", clMalformed, 0}, {"2)", clMalformed, 0}, {"2 *", clMalformed, 0}, {"* 2", clMalformed, 0}, {"2 * / 3", clMalformed, 0}, {"abs()", clMalformed, 0}, {"1 + (2 *) + 3", clMalformed, 0},
